@@ -321,9 +321,9 @@ def instances_rich(draw: Any, max_items: int = 14, max_dim: int = 60) -> dict:
     bottom-left rule) are frequent."""
     W = draw(st.integers(5, max_dim))
     H = draw(st.integers(5, max_dim))
-    pal_w = draw(st.lists(st.integers(1, max(1, W // 2)), min_size=1,
+    pal_w = draw(st.lists(st.integers(1, max(1, (2 * W) // 3)), min_size=1,
                           max_size=4))
-    pal_h = draw(st.lists(st.integers(1, max(1, H // 2)), min_size=1,
+    pal_h = draw(st.lists(st.integers(1, max(1, (2 * H) // 3)), min_size=1,
                           max_size=3))
     n_types = draw(st.integers(2, 6))
     items: list[list[int]] = []
@@ -348,8 +348,10 @@ def decode_case(draw: Any, rich_share: int = 5, **kw: Any) -> dict:
         inst = draw(instances_rich(max_items=kw.get("max_items", 14)))
     else:
         inst = draw(instances(**kw))
-    return {"inst": inst, "x": draw(signed_perm(inst)),
-            "enc": draw(st.sampled_from([1, 2])),
+    x = draw(signed_perm(inst))
+    # rotated by the instance so that both encodings are equally frequent
+    enc = 1 + (draw(st.integers(0, 1)) + inst["W"] + len(x)) % 2
+    return {"inst": inst, "x": x, "enc": enc,
             "garbage": draw(st.integers(-3, 100))}
 
 
